@@ -115,6 +115,14 @@ def run_history(EP, RealLP, case):
             os.environ['LINE_PROFILE'] = old_env
 
 
+def list_files(d):
+    out = []
+    for root, _dirs, files in os.walk(d):
+        for f in files:
+            out.append(os.path.relpath(os.path.join(root, f), d))
+    return out
+
+
 def classify_outputs(prefix, names, stdout):
     """-> sorted list of [kind code, file name or None]; 9 = something nobody asked for"""
     out = []
@@ -148,6 +156,8 @@ def run_show(EP, RealLP, case, tmp):
         if case['prefix'] is None:
             gp.enable()
         else:
+            if os.path.dirname(case['prefix']):
+                os.makedirs(os.path.dirname(case['prefix']), exist_ok=True)
             gp.enable(output_prefix=case['prefix'])
 
         def f(x):
@@ -162,7 +172,7 @@ def run_show(EP, RealLP, case, tmp):
                 gp.show()
             except Exception as e:  # noqa
                 err = type(e).__name__
-        names = os.listdir(d)
+        names = list_files(d)
         seen, ts = classify_outputs(gp.output_prefix, names, buf.getvalue())
         sizes_ok = all(os.path.getsize(os.path.join(d, n)) > 0 for n in names)
         return dict(seen=seen, ts=ts, err=err, prefix=gp.output_prefix, sizes_ok=sizes_ok)
@@ -219,7 +229,7 @@ def run_sub(case, tmp):
         for line in p.stdout.splitlines():
             if line.startswith('OBS '):
                 obs = json.loads(line[4:])
-        names = [n for n in os.listdir(d) if n != 'prog.py' and n != '__pycache__']
+        names = [n for n in list_files(d) if n != 'prog.py' and not n.startswith('__pycache__')]
         prefix = case.get('prefix') if case['pre'] == 'enable_prefix' else 'profile_output'
         seen, ts = classify_outputs(prefix, names, p.stdout)
         return dict(rc=p.returncode, obs=obs, seen=seen, ts=ts, stderr=p.stderr[-400:], prefix=prefix)
